@@ -25,4 +25,32 @@ PROPS = {
     "C03": packet_prop("ack authenticity (`AckOk`), written-once / non-empty (`WriteAckOk`), commitment deleted on ack, recorded ack = application's ack; correspondence with forged / replayed acks; oracles check commitment-before and ack-at-prover on the real stores."),
     "C09": packet_prop("`send_seq_invariant` over all histories (sequences handed out are exactly 1..nextSend-1 in order), exact write-set of a successful send, failing send / transfer unchanged; correspondence incl. failing sends; oracles on next-sequence / commitment / event."),
     "C10": packet_prop("accept-iff conditions for CleanPacket / RecvCleanPacket, exact delete set, `cleanpoint_monotone` and `refused_for_good` over all histories; correspondence with cleans on source / relay / destination in all orders; oracles on monotonicity and refusal."),
+    "C12": {"level": "proof", "streams": [{"name": "routing", "test": "TestStreamRouting", "cases": 4, "ops": 600, "thorough_scale": 20}],
+            "assumptions": ["Go regexp / strings.Split behave as documented (the rule-syntax recogniser is validated against the real RulePattern by the stream)"],
+            "explanation": "`rules_accepted_iff`, `authenticate_iff`, `no_rules_nothing` for all rule lists / triples over List Char; correspondence of SetRoutingRules+Authenticate on the real keeper over the full identifier alphabet weighted to regexp metacharacters; independent field-wise oracle."},
+    "C04": {"level": "proof", "streams": [{"name": "nft", "test": "TestStreamNft", "cases": 9, "ops": 50, "thorough_scale": 12}],
+            "assumptions": COMMON_ASSUME + ["irisnet nft / cosmos-sdk x/nft keepers modelled from source (ownership map, class table); exercised through the real keepers"],
+            "level_text": "PARTIAL proof: class-path algebra for all strings, the send-side well-formedness guard, per-step custody lemmas (lock/burn exactly the sender's token, release only from escrow, users cannot mint vouchers). The global exactly-one-holder invariant is not proved; it is checked on the real chains by a provenance-ledger oracle over scripted forged-class / round-trip scenarios and random histories.",
+            "explanation": "Lean: Props/C04 (+C06 path algebra). Correspondence: nft stream (real NFT module, real transfers on 2-4 chains, path-shaped class ids) diffed against the model; oracle: provenance ledger (holder count, escrow released to the right claimant)."},
+    "C05": {"level": "proof", "streams": [{"name": "mt", "test": "TestStreamMt", "cases": 8, "ops": 60, "thorough_scale": 12}],
+            "assumptions": COMMON_ASSUME + ["irisnet mt keeper modelled from source with its exact overflow guards and unchecked subtractions (wrap-around modelled)"],
+            "level_text": "PARTIAL proof: 64-bit arithmetic of every token-module operation (no wrap under locally checked bounds, exact deltas), error-ack leaves balances/supply unchanged. The cross-chain sum invariant is not proved; checked on the real chains by the provenance-ledger oracle (supply = sum of balances per chain; user-held + in-flight = minted - burnt) with amounts up to 2^64-1.",
+            "explanation": "Lean: Props/C05. Correspondence: mt stream diffed against the model incl. near-2^64 amounts; oracle: conservation ledger."},
+    "C06": {"level": "proof", "streams": [{"name": "nft", "test": "TestStreamNft", "cases": 9, "ops": 50, "thorough_scale": 12},
+                                          {"name": "mt", "test": "TestStreamMt", "cases": 6, "ops": 50, "thorough_scale": 12}],
+            "assumptions": COMMON_ASSUME,
+            "level_text": "proof of the path algebra behind refunds and round trips for all strings and routes of any length (`back_away_base`, `back_away_path`, `parse_full`); refund exactness and round-trip restoration on real chains by oracle (scripted 1-3 hop round trips with/without relay, error acks at every failure point).",
+            "explanation": "Lean: Props/C06. Correspondence: nft + mt streams; oracles: refund-exact, refund-fails, round-trip-restores."},
+    "C11": {"level": "proof", "streams": [PACKET_STREAM, {"name": "nft", "test": "TestStreamNft", "cases": 9, "ops": 50, "thorough_scale": 12},
+                                          {"name": "mt", "test": "TestStreamMt", "cases": 6, "ops": 50, "thorough_scale": 12}],
+            "assumptions": COMMON_ASSUME,
+            "explanation": "`relay_forward_iff`, `relay_reject_error_ack`, `relay_ack_passthrough`, `relay_no_callbacks`; correspondence on A-R-C topologies with every rule-set shape; oracles: relay chain token state unchanged, error ack passes the relay, unknown destination answered with an error ack."},
+    "C13": {"level": "proof", "streams": [PACKET_STREAM],
+            "assumptions": COMMON_ASSUME,
+            "level_text": "proof of the NEGATION on the faithful model (`port_not_bound`, `relay_not_bound`, evaluated witnesses), replayed on the real chains; recorded as known findings F-C13 (wire-protocol change needed).",
+            "explanation": "Lean: Props/C13. The packet stream edits port / relay fields of committed packets; the c13 oracle replays the witnesses on real chains."},
+    "C19": {"level": "proof", "streams": [PACKET_STREAM, {"name": "nft", "test": "TestStreamNft", "cases": 9, "ops": 50, "thorough_scale": 12},
+                                          {"name": "mt", "test": "TestStreamMt", "cases": 6, "ops": 50, "thorough_scale": 12}],
+            "assumptions": COMMON_ASSUME,
+            "explanation": "`failed_msg_unchanged` (every message kind), the one swallowed-error path leaves exactly receipt+ack, `nft_error_ack_no_ownership_effect`; oracle: raw KV dump of tibc/NFT/MT/nft/mt stores identical before/after every failed message; error-ack leaves token state unchanged."},
 }
